@@ -11,6 +11,7 @@ import json
 import os
 import re
 import shutil
+import struct
 
 import core
 import obs
@@ -48,10 +49,24 @@ def gen_mt(chk, i):
     nth = rng.choice([2, 3, 4, 8, 16])
     out = ["proc 1 node 900"]
     expect = {}
+    # thread churn: in a third of the runs the threads come in rounds - one
+    # thread lives and is freed, then a group starts together, is freed, and so
+    # on (a runtime replacing its workers).  Every section passes all 2R barriers;
+    # its own life lies after barrier number `slot`.
+    churn = i % 3 == 1
+    rounds = rng.randint(2, 5) if churn else 0
+    group = rng.randint(2, 6) if churn else 0
+    slots = []
+    if churn:
+        for r_ in range(rounds):
+            slots.append(2 * r_)
+            slots.extend([2 * r_ + 1] * group)
+        nth = len(slots)
     for k in range(nth):
         tid = 3000 + k
         shc = c01.Shadow()
-        ops = ["barrier", "init %d" % tid]
+        first_wave = churn
+        ops = (["barrier"] * slots[k] if churn else ["barrier"]) + ["init %d" % tid]
         cpus = []
         for c in range(rng.randint(0, 3)):
             cpus.append((k * 10 + c, k * 10 + c)); ops.append("cpu %d %d" % cpus[-1])
@@ -65,7 +80,7 @@ def gen_mt(chk, i):
             ops.append("attr_str %s %s" % (key, val)); attrs[key] = val
         if rng.random() < 0.5:
             ops.append("rank %d %d" % (k, 64))
-        n = rng.choice([50, 500, 3000])
+        n = rng.choice([50, 500, 3000]) if not first_wave else rng.choice([5, 50])
         for _ in range(n):
             r = rng.random()
             if r < 0.03:
@@ -78,12 +93,12 @@ def gen_mt(chk, i):
                 ops.append("attr_flush")
             else:
                 ops.append(c01.op_event(rng, shc))
-        ops += ["flush", "free"]
+        ops += ["flush", "free"] + (["barrier"] * (2 * rounds - slots[k]) if churn else [])
         out += ["thread"] + ops + ["end"]
         expect[tid] = {"cpus": cpus, "attrs": attrs, "reqs": reqs, "rank": None}
     out.append("fini")
     return {"script": "\n".join(out) + "\n", "nth": nth, "expect": expect,
-            "tmpdir": rng.random() < 0.4, "delay": rng.randint(1, 10 ** 6)}
+            "tmpdir": rng.random() < 0.4, "delay": rng.randint(1, 10 ** 6), "churn": rounds}
 
 
 _CTX = {}
@@ -225,6 +240,64 @@ def run_race(i):
         shutil.rmtree(wd, ignore_errors=True)
 
 
+def run_churn(i):
+    """Thread churn (drivers/churndrv.c): rounds of one thread that lives and
+    is freed followed by K threads initialising together; half of the runs on
+    the ThreadSanitizer build, half on the plain build (schedules closer to
+    production).  Every stream must hold exactly its own thread's N tagged
+    events."""
+    chk = _CTX["chk"]
+    rng = chk.rng(i, "churn")
+    tsan = i % 2 == 0
+    exe = _CTX["churn_tsan"] if tsan else _CTX["churn_plain"]
+    rounds, k, nev = (rng.randint(20, 40), rng.randint(2, 6), rng.choice([3, 40, 400])) if tsan else \
+                     (rng.randint(100, 200), rng.randint(2, 8), rng.choice([3, 40, 400]))
+    wd = os.path.join(chk.scratch, "churn%d" % i)
+    res = {"i": i, "viol": [], "inconclusive": None, "starts": 0, "streams": 0, "tsan": tsan}
+    try:
+        os.makedirs(wd)
+        env = dict(TSAN_ENV) if tsan else {}
+        env["OVNI_TRACEDIR"] = os.path.join(wd, "trace")
+        env["OVNI_VERIF_DELAY"] = str(rng.randint(1, 10 ** 6))
+        if rng.random() < 0.3:
+            env["OVNI_TMPDIR"] = os.path.join(wd, "tmp")
+        r = core.run_retry([exe, str(rounds), str(k), str(nev)], env=env, cwd=wd, timeout=300)
+        if r.timeout:
+            res["inconclusive"] = "churn driver timeout"; return res
+        if tsan:
+            for key, block in tsan_reports(r.err):
+                if key.startswith("harness:"):
+                    continue
+                res["viol"].append(("tsan:" + key, "ThreadSanitizer report inside libovni (thread churn)", {"report": block[:3000]}))
+        if r.rc != 0 or "CHURN-DONE" not in r.out:
+            res["viol"].append(("driver-died:churn", "the library stopped a program whose threads come and go: rc=%s sig=%s %s"
+                                % (r.rc, r.sig, r.err.strip().split("\n")[-1][:200]), r.brief()))
+            return res
+        res["starts"] = rounds
+        for sd in obs.find_streams(env["OVNI_TRACEDIR"]):
+            tid = int(os.path.basename(sd).split(".")[1])
+            try:
+                evs = obs.decode_file(os.path.join(sd, "stream.obs"))
+            except (obs.DecodeError, OSError) as ex:
+                res["viol"].append(("churn:not-tiled", "stream of thread %d: %s" % (tid, ex), {})); break
+            mine = [e for e in evs if not rt.is_flush_marker(e)]
+            res["streams"] += 1
+            want = [struct.pack("<II", tid, n) for n in range(nev)]
+            got = [bytes(e.payload) for e in mine]
+            if got != want:
+                k_ = next((n for n in range(min(len(got), len(want))) if got[n] != want[n]), min(len(got), len(want)))
+                who = struct.unpack("<II", got[k_])[0] if k_ < len(got) and len(got[k_]) == 8 else None
+                res["viol"].append(("churn:foreign-or-missing-events", "stream of thread %d holds %d events, its thread emitted %d; "
+                                    "first difference at event %d (emitted by thread %s)" % (tid, len(got), nev, k_, who),
+                                    {"rounds": rounds, "k": k, "n": nev}))
+                break
+        if res["streams"] != rounds * (k + 1) and not res["viol"]:
+            res["viol"].append(("churn:stream-count", "%d streams for %d threads" % (res["streams"], rounds * (k + 1)), {}))
+        return res
+    finally:
+        shutil.rmtree(wd, ignore_errors=True)
+
+
 def main(argv):
     chk = core.Check("C11", "exploration", argv)
     tsan = chk.build("tsan", ["ovni"])
@@ -232,7 +305,14 @@ def main(argv):
     race = os.path.join(chk.scratch, "racedrv")
     chk.cc(race, [os.path.join(core.VERIF, "drivers", "racedrv.c")], tsan,
            extra=["-L", tsan.libdir, "-lovni", "-lpthread", "-Wl,-rpath," + tsan.libdir])
-    _CTX.update(chk=chk, drv=drv, race=race)
+    plain = chk.build("plain", ["ovni"])
+    churn_t = os.path.join(chk.scratch, "churndrv-tsan")
+    chk.cc(churn_t, [os.path.join(core.VERIF, "drivers", "churndrv.c")], tsan,
+           extra=["-L", tsan.libdir, "-lovni", "-lpthread", "-Wl,-rpath," + tsan.libdir])
+    churn_p = os.path.join(chk.scratch, "churndrv-plain")
+    chk.cc(churn_p, [os.path.join(core.VERIF, "drivers", "churndrv.c")], plain,
+           extra=["-L", plain.libdir, "-lovni", "-lpthread", "-Wl,-rpath," + plain.libdir])
+    _CTX.update(chk=chk, drv=drv, race=race, churn_tsan=churn_t, churn_plain=churn_p)
     quick = chk.tier == "quick"
     mt_cases = list(range(40 if quick else 1200))
     race_cases = list(range(150 if quick else 4000))
@@ -261,16 +341,27 @@ def main(argv):
             winners.add((r["n"],) + r["winner"])
         for key, what, o in r["viol"]:
             chk.report(key, what, dict(o, case=r["i"], kind="race"))
+    nchurn = starts = cstreams = 0
+    churn_cases = [] if chk.replay else list(range(16 if quick else 400))
+    for r in core.pmap(run_churn, churn_cases, jobs=max(2, core.NCPU // 4)):
+        if r["inconclusive"]:
+            chk.note_inconclusive(r["inconclusive"]); continue
+        nchurn += 1; starts += r["starts"]; cstreams += r["streams"]
+        for key, what, o in r["viol"]:
+            chk.report(key, what, dict(o, case=r["i"], kind="churn"))
     c0 = gen_mt(chk, 0)
-    cov = {"evaluations": nmt + nrace, "distinct_nontrivial": len(orders) + len(winners),
+    cov = {"evaluations": nmt + nrace + nchurn, "distinct_nontrivial": len(orders) + len(winners),
            "rule": "libovni built with gcc -fsanitize=thread. MT runs: 2-16 threads released from a barrier, each init / "
                    "add-cpu / require / attributes / 50-3000 emits incl. jumbos, marks, explicit and automatic flushes, "
                    "attr_flush / free, with OVNI_VERIF_DELAY perturbation and OVNI_TMPDIR on/off; per-thread stream and "
                    "metadata compared with that thread's own log. Race runs: 2-16 threads race ovni_proc_init, then "
-                   "ovni_proc_fini; losers are parked in a SIGABRT handler and counted. distinct_nontrivial = distinct "
+                   "ovni_proc_fini; losers are parked in a SIGABRT handler and counted. Churn runs: rounds of one thread that "
+                   "lives and is freed followed by 2-8 threads initialising together (TSan and plain builds), every "
+                   "stream checked against its thread's tagged events. distinct_nontrivial = distinct "
                    "thread-completion orders (metadata store order) + distinct (N, init winner, fini winner) triples",
            "samples": [{"threads": c0["nth"], "first_lines": c0["script"].split("\n")[:10]}],
-           "mt_runs": nmt, "threads_run": threads, "events_compared": ev, "race_runs": nrace,
+           "mt_runs": nmt, "churn_runs": nchurn, "churn_group_starts": starts, "churn_streams_checked": cstreams,
+           "threads_run": threads, "events_compared": ev, "race_runs": nrace,
            "distinct_completion_orders": len(orders), "distinct_winner_triples": len(winners),
            "sanitizer": "thread (gcc), reports collected with halt_on_error=0 and de-duplicated by library entry points"}
     return chk.finish(cov, assumptions=[
